@@ -14,7 +14,7 @@ from ..snap import build_model, is_library_domain_error, safe_call
 
 ID = "C09"
 RULE = ("One fitted model per case (four kinds; safe metrics and all symmetric dissimilarities; on-the-fly and pre-computed) and a pool of uniquely "
-        "identified query rows (training copies, perturbations, midpoints, outliers). Each row is predicted: in the full batch, alone, at every "
+        "identified query rows (training copies, perturbations, midpoints, outliers, rows at 1e200 whose distances all overflow). Each row is predicted: in the full batch, alone, at every "
         "position of random sub-batches, in permuted batches, beside duplicates of itself, after earlier predict calls, in batches longer than the "
         "training set, and - directed - as a copy of training row i placed at batch position i. All (label[, cluster]) results of one row must be "
         "equal. Non-trivial: some row predicted at >=3 distinct positions including one < n_train and one training copy at position = its training "
@@ -27,7 +27,7 @@ BUDGET = {
     "quick": {"cases": 6400, "seconds": 90, "shards": 8},
     "thorough": {"cases": 120000, "seconds": 900, "shards": 16},
 }
-REQUIRED_OBS = ["rows_compared", "kind:supervised", "kind:semi", "kind:knn", "kind:unsup", "train_copy_at_own_index", "batch_longer_than_train",
+REQUIRED_OBS = ["extreme_query_rows", "rows_compared", "kind:supervised", "kind:semi", "kind:knn", "kind:unsup", "train_copy_at_own_index", "batch_longer_than_train",
                 "pre_computed_cases", "after_earlier_predicts"]
 MIN_NONTRIVIAL = 100
 KINDS = ["supervised", "semi", "knn", "unsup"]
@@ -47,6 +47,11 @@ def generate(rng, tier, idx):
     YV[0] = int(Y.max())
     max_k = int(rng.integers(1, min(5, n - 1) + 1))
     pool = gen.to_domain(gen.make_queries(rng, A, int(rng.integers(3, 9))), dom)
+    if rng.random() < 0.35:
+        # rows so far away that every distance overflows to inf: the result must still be a function of the row alone
+        pool[int(rng.integers(0, len(pool)))] = 1e200
+        if len(pool) > 2 and rng.random() < 0.5:
+            pool[int(rng.integers(0, len(pool)))] = 1e200
     pre = None
     if rng.random() < 0.25:
         if kind == "knn":
@@ -114,6 +119,8 @@ def check(case):
         for j in range(len(pool)):
             rows["q%d" % j] = (pool[j].copy(), None)
         train_ids = {"t%d" % i: i for i in range(n)}
+    if not pre and any(np.any(np.abs(v[0]) >= 1e150) for v in rows.values()):
+        res.see("extreme_query_rows")
     ids = list(rows)
     seen = {i: {} for i in ids}        # id -> {result: first context}
     positions = {i: set() for i in ids}
